@@ -48,13 +48,17 @@ def path_text(v):
 
 
 def _join(a, b):
-    return z3.Concat(a, z3.StringVal("/"), b)
+    return z3.Concat(z_str(a), z3.StringVal("/"), z_str(b))
 
 
 def path_attr(ex, obj, name, fr):
     t = obj.info["text"]
     if name in ("joinpath", "resolve", "exists", "mkdir", "expanduser", "is_file", "with_suffix", "stat"):
         return VLib("path." + name, obj)
+    if name in ("suffix", "stem", "name", "parent") and (is_conc(t) or z3.is_string_value(z3.simplify(t))):
+        import pathlib
+        pp = pathlib.PurePosixPath(t if is_conc(t) else z3.simplify(t).as_string())
+        return mk_path(ex, str(pp.parent)) if name == "parent" else VStr(getattr(pp, name))
     if name in ("suffix", "stem", "name", "parent"):
         h = ex.cfg.lib_overrides.get(("path_part", name))
         if h is not None:
